@@ -11,6 +11,8 @@ import types
 from factorysimpy.nodes.source import Source
 from factorysimpy.nodes.sink import Sink
 from factorysimpy.nodes.machine import Machine
+from factorysimpy.nodes.combiner import Combiner
+from factorysimpy.nodes.splitter import Splitter
 from factorysimpy.edges.buffer import Buffer
 
 _orig_resume = simpy.events.Process._resume
@@ -46,6 +48,9 @@ def _resume(self, event):
     rec.begin(nid, self)
     try:
         r = _orig_resume(self, event)
+        if rec.act is not None and not self.is_alive and self._ok is False and isinstance(self._value, BaseException):
+            # the generator raised: simpy fails the process event, the exception surfaces one kernel step later
+            rec.act["calls"].append(f"crash {type(self._value).__name__}")
         tgt = getattr(self, "_target", None)
         if rec.act is not None and self.is_alive and tgt is not None:
             from simpy.resources.resource import Request, Release
@@ -93,6 +98,7 @@ class Recorder:
         self.tok_count = {}
         self.open_toks = {}       # node -> list of (ordinal, event)
         self.item_ids = {}        # id(item) -> small int
+        self.move_content = []    # parallel to moves: ids carried by the unit (pallet content) at that moment
         self.moves = []           # global item-movement trace: (step, now, kind, edge, item, node)
         self.crash = None
         self.instant_viol = []    # (prop, rule, message) found at the end of simulated instants
@@ -142,6 +148,20 @@ class Recorder:
                              work_capacity=cfg.get("wc", 1), processing_delay=pd, blocking=cfg.get("blocking", True),
                              in_edge_selection=self._policy(cfg.get("inp", "FIRST_AVAILABLE")),
                              out_edge_selection=self._policy(cfg.get("out", "FIRST_AVAILABLE")))
+        elif kind == "combiner":
+            pd = Draws(self, "draw", cfg["pd"])
+            n = object.__new__(Combiner); reg(n)
+            Combiner.__init__(n, self.env, f"N{i}", node_setup_time=t2f(cfg.get("setup", 0)),
+                              target_quantity_of_each_item=list(cfg.get("target", [1])), processing_delay=pd,
+                              blocking=cfg.get("blocking", True),
+                              out_edge_selection=self._policy(cfg.get("out", "FIRST_AVAILABLE")))
+        elif kind == "splitter":
+            pd = Draws(self, "draw", cfg["pd"])
+            n = object.__new__(Splitter); reg(n)
+            Splitter.__init__(n, self.env, f"N{i}", node_setup_time=t2f(cfg.get("setup", 0)), processing_delay=pd,
+                              blocking=cfg.get("blocking", True),
+                              in_edge_selection=self._policy(cfg.get("inp", "FIRST_AVAILABLE")),
+                              out_edge_selection=self._policy(cfg.get("out", "FIRST_AVAILABLE")))
         else:
             raise ValueError(kind)
         self.nodes.append((kind, n, cfg))
@@ -221,13 +241,18 @@ class Recorder:
         elif name in ("put", "get"):
             tok = a[0]; o = self.tok_ord.get(id(tok), (None, "?"))[1]
             item = a[1] if name == "put" else r
-            act["calls"].append(f"{name} e{e} t{o} i{self.iid(item)}")
+            it = item[0] if isinstance(item, tuple) else item
+            content = [self.iid(x) for x in getattr(it, "items", [])] if getattr(it, "flow_item_type", "") == "Pallet" else []
+            act["calls"].append(f"{name} e{e} t{o} i{self.iid(item)}" + (str(content) if (content and name == "put") else ""))
             if name == "get":
-                it = item[0] if isinstance(item, tuple) else item
                 c = getattr(it, "timestamp_creation", None)
-                act["items"].append((self.iid(item), f2t(c) if c is not None and f2t(c) is not None else 0))
+                woke = [x for x, ev in self.open_toks[nid] if ev.triggered and x not in act["trigset"] and ev is not tok]
+                act["trigset"].update(woke)
+                act["items"].append((self.iid(item), f2t(c) if c is not None and f2t(c) is not None else 0,
+                                     int(getattr(it, "flow_item_type", "") == "Pallet"), content, woke))
             self.open_toks[nid] = [(x, ev) for x, ev in self.open_toks[nid] if ev is not tok]
             self.moves.append((len(self.acts), f2t(self.env.now), name, ei, self.iid(item), nid))
+            self.move_content.append(tuple(content))
         else:
             tok = a[0]; o = self.tok_ord.get(id(tok), (None, "?"))[1]
             act["calls"].append(f"{'cp' if 'put' in name else 'cg'} e{e} t{o}")
@@ -237,7 +262,7 @@ class Recorder:
     def begin(self, nid, proc):
         trig = [o for o, ev in self.open_toks[nid] if ev.triggered]
         self.act = dict(step=self.env.nsteps, t=f2t(self.env.now), node=nid, proc=proc._fs_ord, kind=proc._fs_kind,
-                        trig=trig, calls=[], items=[], stats=None, alive=True)
+                        trig=trig, trigset=set(trig), calls=[], items=[], stats=None, alive=True)
 
     def end(self, nid, proc):
         act = self.act; self.act = None
@@ -251,6 +276,14 @@ class Recorder:
         else:
             last = act["calls"][-1] if act["calls"] else ""
             toks = [int(x.split()[2][1:]) for x in act["calls"] if x.startswith(("rg ", "rp "))]
+            if not toks and last.startswith("await any") and key in self.awaiting:
+                # waiting again on what is left of an earlier reservation list (combiner gathering loop)
+                still = set(o for o, _ in self.open_toks[nid])
+                toks = [o for o in self.awaiting[key][1] if o in still]
+            if not toks and last == "await req" and key in self.awaiting:
+                # a granted reservation kept while the process waits for a worker slot (splitter)
+                still = set(o for o, _ in self.open_toks[nid])
+                toks = [o for o in self.awaiting[key][1] if o in still]
             self.awaiting[key] = (last, toks, act["kind"])
 
     def snapshot(self, nid):
@@ -268,6 +301,11 @@ class Recorder:
             d["rep"] = tuple(n.state_rep) if n.state_rep is not None else None
             d["occ"] = [f2t(x) for x in n.time_per_work_occupancy]
             d["insel"] = list(st["in_edge_selection"]); d["outsel"] = list(st["out_edge_selection"])
+            d["pd"] = [f2t(x) for x in st["processing_delay"]]
+        elif kind in ("combiner", "splitter"):
+            d["state"] = n.state
+            d["occ"] = [f2t(x) for x in n.time_per_work_occupancy]
+            d["insel"] = list(st.get("in_edge_selection", [])); d["outsel"] = list(st["out_edge_selection"])
             d["pd"] = [f2t(x) for x in st["processing_delay"]]
         else:
             d["state"] = n.state
